@@ -40,6 +40,9 @@ type gm struct {
 	foreign     map[string]bool   // fields of the receiver that hold objects of other types (their methods are external calls)
 	namedInts   map[string]string // package-level `type T <integer type>`: a conversion T(x) is the conversion to the underlying type
 	namedRes    []string          // named results of the function being translated (embedding names): a bare `return` returns them
+	capBase     int               // >0 while a closure body is translated: scopes below this index belong to the enclosing function
+	captured    map[string]bool   // embedding names of enclosing-function variables the closure body mentions
+	lifted      [][2]string       // closures lifted to functions of their own: (alias, Lean definition of the Func)
 }
 
 // namedIntTypes: `type msgType byte` … of the files a unit reads its constants from.
@@ -69,10 +72,71 @@ func (g *gm) pop()  { g.scopes = g.scopes[:len(g.scopes)-1] }
 func (g *gm) resolve(name string) string {
 	for i := len(g.scopes) - 1; i >= 0; i-- {
 		if n, ok := g.scopes[i][name]; ok {
+			if g.capBase > 0 && i < g.capBase && g.captured != nil {
+				g.captured[n] = true
+			}
 			return n
 		}
 	}
 	return name
+}
+
+// liftClosure: `name := func(params) … { body }` becomes a function of its own, `<function>·<name>`, whose parameters are the
+// closure's parameters followed by the variables of the enclosing function its body mentions (sorted): the closure VALUE is an
+// opaque record naming it. Captured variables are passed by value: a closure that assigns to one is outside the subset. What the
+// code does with the value (passing it to a callee that may or may not call it) is visible as the argument of that call.
+func (g *gm) liftClosure(name string, fl *ast.FuncLit) string {
+	short := g.cur
+	if i := strings.Index(short, "."); i >= 0 {
+		short = short[i+1:]
+	}
+	alias := short + "·" + name
+	savedRes, savedBase, savedCap := g.namedRes, g.capBase, g.captured
+	g.namedRes, g.capBase, g.captured = nil, len(g.scopes), map[string]bool{}
+	g.push()
+	var params []string
+	for _, p := range fl.Type.Params.List {
+		for _, n := range p.Names {
+			params = append(params, g.declare(n.Name))
+		}
+	}
+	var bodyStmts []string
+	if fl.Type.Results != nil {
+		for _, p := range fl.Type.Results.List {
+			for _, n := range p.Names {
+				nm := g.declare(n.Name)
+				if nm != "_" {
+					g.namedRes = append(g.namedRes, nm)
+					bodyStmts = append(bodyStmts, "(.assign [.var "+strconv.Quote(nm)+"] ["+zeroExpr(p.Type)+"])")
+				}
+			}
+		}
+	}
+	for _, st := range fl.Body.List {
+		bodyStmts = append(bodyStmts, g.stmt(st)...)
+	}
+	g.pop()
+	var caps []string
+	for c := range g.captured {
+		caps = append(caps, c)
+	}
+	sort.Strings(caps)
+	body := "[" + strings.Join(bodyStmts, ",\n      ") + "]"
+	for _, c := range caps {
+		q := regexp.QuoteMeta("(.var " + strconv.Quote(c) + ")")
+		if regexp.MustCompile(`\(\.assign \[[^\]]*`+q).MatchString(body) || regexp.MustCompile(`\(\.opAssign "[^"]*" `+q).MatchString(body) {
+			g.bad("closure assigns to a captured variable ("+c+")", fl)
+		}
+	}
+	g.namedRes, g.capBase, g.captured = savedRes, savedBase, savedCap
+	var ps []string
+	for _, p := range append(params, caps...) {
+		ps = append(ps, strconv.Quote(p))
+	}
+	def := "fn_" + strings.NewReplacer(".", "_", "·", "_").Replace(g.cur) + "_" + name
+	g.lifted = append(g.lifted, [2]string{alias, fmt.Sprintf("/-- closure `%s` of `%s`, lifted: parameters = its own, then the captured variables %v -/\ndef %s : Func :=\n  { recv := none, params := [%s],\n    body := %s }\n\n",
+		name, g.cur, caps, def, strings.Join(ps, ", "), body)})
+	return "(.lit [(\"closure\", (.str " + strconv.Quote(alias) + "))])"
 }
 
 // declare: `name` is declared in the current scope (`:=`, `var`, range variable, parameter). Go's
@@ -515,6 +579,13 @@ func (g *gm) stmt(s ast.Stmt) []string {
 					}
 				}
 			}
+			if len(x.Lhs) == 1 && len(x.Rhs) == 1 {
+				if fl, ok := x.Rhs[0].(*ast.FuncLit); ok {
+					if id, ok := x.Lhs[0].(*ast.Ident); ok {
+						rhs = "[" + g.liftClosure(id.Name, fl) + "]"
+					}
+				}
+			}
 			if rhs == "" {
 				rhs = g.exprs(x.Rhs)
 			}
@@ -886,6 +957,12 @@ func genGoMini(module string, order []string, units map[string][]string, constFi
 			body := "[" + strings.Join(bodyStmts, ",\n      ") + "]"
 			fmt.Fprintf(&b, "/-- `%s` (%s) -/\ndef %s : Func :=\n  { recv := %s, params := [%s],\n    body := %s }\n\n", fnName, rel, def, recv, strings.Join(params, ", "), body)
 			names = append(names, "("+strconv.Quote(short)+", "+def+")")
+			for _, lf := range g.lifted {
+				b.WriteString(lf[1])
+				ldef := lf[1][strings.Index(lf[1], "\ndef ")+5:]
+				ldef = ldef[:strings.Index(ldef, " ")]
+				names = append(names, "("+strconv.Quote(lf[0])+", "+ldef+")")
+			}
 			for _, u := range g.unsupported {
 				allUnsupported = append(allUnsupported, u)
 				lost = append(lost, rel+":gomini:"+u)
@@ -1017,6 +1094,10 @@ func genGoMiniAll() []*leanFile {
 		[]string{sv + "partition.go"},
 		map[string][]string{sv + "partition.go": {"partition.handleReplicationRequest", "partition.handleReplicationResponse", "partition.handleLeaderOffsetRequest", "minInt64"}},
 		[]string{sv + "partition.go"})})
+	out = append(out, &leanFile{name: "GoElect", raw: genGoMini("GoElect",
+		[]string{sv + "metadata.go"},
+		map[string][]string{sv + "metadata.go": {"metadataAPI.electNewPartitionLeader"}},
+		[]string{sv + "metadata.go"})})
 	out = append(out, &leanFile{name: "GoFailover", raw: genGoMini("GoFailover",
 		[]string{sv + "failover.go", sv + "partition.go"},
 		map[string][]string{
